@@ -57,6 +57,7 @@ type VC struct {
 	addrTerms   map[string]map[Term]*addrUse
 	quantKeys   map[string]bool
 	callArgs    map[string][]cval
+	callArgDyn  map[string][]cval
 	callCount   map[string]int
 	argCount    map[string]int
 	callReach   map[string]Term
